@@ -23,7 +23,9 @@ Transcription (snapshot ef0888e + the `fix:` commits listed in findings/C16.txt)
 * ticks: Go `time.Truncate/Round` count from the year-1 epoch (`zeroOff`); `tickerNext` = `timeTicker.Next`
   (`tickerNextOld` = snapshot: `Round` under align); `liveTick` = what `timeTicker.Start` delivers
   (first `Truncate(now)+every`, then `time.Ticker` times rounded; the runtime's jitter is a parameter);
-  cron is an arbitrary `next` function (the driver instantiates `*/k` second schedules).
+  cron is an arbitrary `next` function (the driver instantiates `*/k` second schedules, ending schedules given by
+  their firing times, and `cronZoneNext`: named hours/minutes/seconds evaluated in a zone `off` ns east of UTC);
+  `cronLiveTicks` = what `cronTicker.Start` sends (ideal runtime), incl. the zero time of an ended schedule.
 * `queries` = `QueryNode.Queries(start, stop)`; the unbounded Go loop is run with fuel
   `stop - start + 1` ns (theorem `queries_fuel_irrelevant`: more fuel changes nothing).
 * `doQuery` = one live tick: mutate the node's own query, issue its text; `batchTime` = the time it stamps on a
@@ -324,6 +326,42 @@ def cronNext (K : Int) (t : Int) : Option Int := some ((t / K + 1) * K)
 /-- A cron schedule that ENDS (a year field): its firing times as an ascending list; after the last one
 `cronexpr.Next` answers the zero time (`none`). -/
 def cronListNext (fires : List Int) (t : Int) : Option Int := fires.find? (fun f => decide (t < f))
+
+/-! ### cron in the host's zone; the live cron ticker -/
+
+/-- One day in ns. -/
+def dayNs : Int := 86400000000000
+
+/-- `cronexpr.Expression.Next(t)` for an expression that names seconds, minutes and hours (day, month and weekday
+`*`). cronexpr reads the civil fields of its argument in the argument's OWN Location: `off` = that zone's offset
+east of UTC in ns (its clock reads `t + off`), `tod` = the named times of day in ns since the zone's midnight,
+ascending. First a later named time on the same day of that clock, else the first one of its next day. -/
+def cronZoneNext (tod : List Int) (off : Int) (t : Int) : Option Int :=
+  let l := t + off
+  match tod.find? (fun x => decide (l % dayNs < x)) with
+  | some x => some (l / dayNs * dayNs + x - off)
+  | none => tod.head?.map (fun x => (l / dayNs + 1) * dayNs + x - off)
+
+/-- Go's zero time (what `cronexpr.Next` answers when the schedule has ended) as Unix ns. -/
+def zeroTime : Int := -zeroOff
+
+/-- `cronTicker.Start`, the first `n` times it sends: `for { now := time.Now(); next := c.expr.Next(now);
+<-time.After(next.Sub(now)); c.ticker <- next }` with an ideal runtime (the clock read after a tick is the tick).
+`next` = `c.expr.Next` in the Location of `time.Now()`, i.e. the host's zone. When the schedule has ended `Next`
+is the zero time, `next.Sub(now)` is negative, `time.After` fires at once and the ZERO TIME is sent — again and
+again (`Next` of the zero time is the zero time). -/
+def cronLiveTicks (next : Int → Option Int) : Nat → Int → List Int
+  | 0, _ => []
+  | n+1, now =>
+    match next now with
+    | none => List.replicate (n + 1) zeroTime
+    | some c => c :: cronLiveTicks next n c
+
+/-- The times `QueryNode.Queries` walks and the times `cronTicker.Start` sends come from the same `c.expr.Next`, but
+each evaluates it in the Location of ITS OWN argument: `start.Local()` there, `time.Now()` here — both the host's
+zone `time.Local` in the code. `cronLiveIn zLive` / `histTicks (cronZoneNext tod zHist)` keep the two zones apart so
+that the theorems can say what their agreement is worth. -/
+def cronLiveIn (tod : List Int) (zLive : Int) (n : Nat) (s0 : Int) : List Int := cronLiveTicks (cronZoneNext tod zLive) n s0
 
 /-! ### batch.go: queries -/
 
